@@ -9,8 +9,8 @@ import PilotaModel.TGen.ProjectK
     predicate), sets without repeated elements, maps without repeated keys, a union with exactly one declared
     variant (or empty when its head is the `Ok(())` of a void method).  `f` bounds the nesting of type
     references (typedef links and value levels); every element of a container is checked with the same `f`.
-  * `restrict keep d` — the reader's document: `d` with the struct fields for which `keep name field` is false
-    removed ("a reader that lacks some fields").
+  * `restrict keep d` — the reader's document: `d` with the struct fields and union variants for which `keep name field`
+    is false removed ("a reader that lacks some fields", "new union variants").
   * `shuf d keep f ty w` — what the reader's decode-then-re-encode does to a typed value: at every struct level
     the fields the reader knows stay in declaration order and the fields it lacks follow them, in wire order,
     untouched.
@@ -87,8 +87,14 @@ def hasTy : Nat → STy → TVal → Bool
 
 /-! ### the reader's document -/
 
+/-- a union variant seen as a field, so that one predicate selects struct fields and union variants alike -/
+def variantField (x : Int × STy) : Field := { id := x.1, ty := x.2, required := false }
+
+def keepVariant (keep : String → Field → Bool) (n : String) (x : Int × STy) : Bool := x.2 == .void || keep n (variantField x)
+
 def restrictDef (keep : String → Field → Bool) (n : String) : Def → Def
   | .struct fs => .struct (fs.filter (keep n))
+  | .union vs => .union (vs.filter (keepVariant keep n))        -- the `Ok(())` head of a void method's result is never removed
   | x => x
 
 def restrict (keep : String → Field → Bool) : Doc := d.map (fun p => (p.1, restrictDef keep p.1 p.2))
@@ -127,7 +133,11 @@ def shuf (keep : String → Field → Bool) : Nat → STy → TVal → TVal
 
 end
 
-/-- what `restrict`ing a document needs of it for the round trip: distinct 16-bit field ids per struct -/
+/-- distinct variant ids per union -/
+def Doc.variantsOk (d : Doc) : Prop :=
+  ∀ n vs, d.find n = some (.union vs) → vs.Pairwise (fun a b => a.1 ≠ b.1)
+
+/-- what `restrict`ing a document needs of it for the round trip: distinct field ids per struct -/
 def Doc.fieldsOk (d : Doc) : Prop :=
   ∀ n fs, d.find n = some (.struct fs) → fs.Pairwise (fun a b => a.id ≠ b.id)
 
